@@ -155,7 +155,11 @@ def inv_violations(steps, answer, query_kind):
         for (how, n, obj) in own_refs(s):
             k = top_index(num_of(n))
             if k is None or k >= i:
-                v.append(('forward-ref', 'step %d (%s) references result %r' % (i, a['cls'], n), 'top'))
+                # a sub-result 'p_j' lives inside container p: nothing of that name is computed at plan level
+                foreign = re.fullmatch(r's\d+_\d+', num_of(n)) is not None
+                v.append(('forward-ref', 'step %d (%s) references result %r%s' % (
+                    i, a['cls'], n, ' — a sub-result of another container, not a step of the plan' if foreign else ''),
+                    'top-foreign-sub' if foreign else 'top'))
             elif how == 'step' and steps[k] is not obj:
                 v.append(('foreign-step', 'step %d (%s) holds a step object numbered %r that is not plan.steps[%d]'
                           % (i, a['cls'], n, k)))
@@ -173,8 +177,11 @@ def inv_violations(steps, answer, query_kind):
                 ok = (k is not None and k < i) or (m is not None and int(m.group(1)) == i and int(m.group(2)) < j)
                 if not ok:
                     part = (a['cls'] == 'MapReduceStep' and isinstance(u.step_num, str) and k is not None and k > i)
-                    v.append(('forward-ref', 'sub-step %d of step %d (%s in %s) references result %r'
-                              % (j, i, type(u).__name__, a['cls'], n), 'partition-sub' if part else 'sub'))
+                    foreign = m is not None and int(m.group(1)) != i
+                    v.append(('forward-ref', 'sub-step %d of step %d (%s in %s) references result %r%s'
+                              % (j, i, type(u).__name__, a['cls'], n,
+                                 ' — a sub-result of another container' if foreign else ''),
+                              'partition-sub' if part else ('sub-foreign-sub' if foreign else 'sub')))
     if not steps:
         v.append(('empty', 'planning returned an empty plan'))
         return v
@@ -251,6 +258,76 @@ def run_planner(query, catalog):
 def parse(sql):
     from mindsdb_sql import parse_sql
     return parse_sql(sql, dialect='mindsdb')
+
+
+def probe_sequence(sqls, catalog):
+    """ONE QueryPlanner object plans the statements one after the other (`planner.from_query(q)`, as prepared-statement style
+    re-planning does); every plan of the sequence must satisfy C09 on its own — nothing of an earlier plan (results, caches)
+    may be referenced.  Returns (list of outcome kinds, failure-or-None)"""
+    from mindsdb_sql.planner import query_planner as qp
+    from mindsdb_sql.exceptions import PlanningException
+    try:
+        qs = [parse(s) for s in sqls]
+    except Exception as e:
+        return ['parse-fail'], None
+    try:
+        planner = qp.QueryPlanner(qs[0], **copy.deepcopy(catalog))
+    except Exception as e:
+        return ['constructor-' + type(e).__name__], None      # catalog errors are the business of `probe`
+    kinds = []
+    for n, q in enumerate(qs):
+        try:
+            plan = planner.from_query(q)
+            steps = list(plan.steps)
+        except (PlanningException, NotImplementedError) as e:
+            kinds.append('user-error')
+            continue
+        except RecursionError:
+            kinds.append('internal-error')
+            continue
+        except Exception as e:
+            st = site_of(e)
+            kinds.append('internal-error')
+            if n == 0:
+                continue          # reported by `probe` on the single statement
+            # only a defect of the SEQUENCE if the statement plans on a fresh planner
+            _, single = probe(sqls[n], catalog)
+            if single is None:
+                cls = 'sequence/internal/%s/%s/%s/%s' % (st['exc'], st['file'], st['func'], norm_msg(str(e)))
+                return kinds, dict(desc='statement %d of a reused planner raised %s (%s) in %s:%s; on a fresh planner it plans'
+                                        % (n, st['exc'], str(e)[:80], st['file'], st['func']), sql=sqls[n], sqls=list(sqls),
+                                   code='sequence-internal', site=st, msg=str(e)[:300], **{'class': cls})
+            continue
+        kinds.append('plan')
+        v = inv_violations(steps, None, type(q).__name__)
+        if v and n > 0:
+            v = [(x + ('',))[:3] for x in v]
+            details = sorted({'%s:%s' % (c, d) for c, _, d in v})
+            return kinds, dict(desc='statement %d of a reused planner: plan violates the invariant: %s' % (
+                                   n, '; '.join(t for _, t, _ in v[:3])), sql=sqls[n], sqls=list(sqls), code='sequence-inv',
+                               details=details, violations=[t for _, t, _ in v][:6],
+                               plan=canon(abstract_plan(steps), 'none'), **{'class': 'sequence-inv/' + '+'.join(details)})
+    return kinds, None
+
+
+def nested_selects(sql):
+    """texts of the SELECTs nested inside a statement (sub-queries of WHERE / targets / FROM)"""
+    from mindsdb_sql.parser.ast import Select
+    try:
+        q = parse(sql)
+    except Exception:
+        return []
+    out = []
+    for node in ast_nodes(q):
+        if isinstance(node, Select) and node is not q:
+            try:
+                node2 = copy.deepcopy(node)
+                node2.parentheses = False
+                node2.alias = None
+                out.append(node2.to_string())
+            except Exception:
+                pass
+    return out
 
 
 def probe(sql, catalog):
